@@ -324,7 +324,7 @@ func (b *V2) Read(c string, q *ReadArgs) *Resp {
 			lim = aws.Int32(int32(*q.Limit))
 		}
 		var esk map[string]types.AttributeValue
-		if len(q.Esk) > 0 {
+		if q.Esk != nil { // an empty start key is passed as an empty, non-nil map
 			esk = ItemToV2(q.Esk)
 		}
 		if q.Kind == "query" {
